@@ -429,6 +429,28 @@ Proof.
   replace (w =? 0) with false by (symmetry; apply N.eqb_neq; lia). reflexivity.
 Qed.
 
+(* deleting succeeds only if the table exists - also for racing deletions of one name: the version a deletion read
+   from the record is positive, and once the record is gone a write with that version is refused (an absent key has
+   version 0) *)
+Theorem delete_reads_positive s m name r ver : CInv s -> get_pc (c_pcs s) m = CIdle -> tget (c_tabs s) name = Some (r, ver) ->
+  fst (cexec s (ADelete m name)) = with_pc s m (CDelete1 name ver) /\ 1 <= ver.
+Proof.
+  intros HI Ep Et. cbn [cexec]. rewrite Ep, Et. split; [reflexivity|]. destruct (j_tabv s HI name r ver Et). assumption.
+Qed.
+Theorem race_second_delete_fails s m name ver : get_pc (c_pcs s) m = CDelete1 name ver -> ver <> 0 ->
+  tget (c_tabs s) name = None -> snd (cexec s (AStep m)) = CRFailed /\ c_tabs (fst (cexec s (AStep m))) = c_tabs s.
+Proof.
+  intros Ep Hv Et. cbn [cexec]. rewrite Ep. unfold cas_tab. rewrite Et.
+  destruct (N.eqb_spec ver 0); [contradiction|]. split; reflexivity.
+Qed.
+(* ... and a restore that lost its table to a deletion cannot bring the record back with the version it read *)
+Theorem restore_after_delete_fails s m name r ver id : get_pc (c_pcs s) m = CRest3 name r ver id -> ver <> 0 ->
+  tget (c_tabs s) name = None -> snd (cexec s (AStep m)) = CRFailed /\ c_tabs (fst (cexec s (AStep m))) = c_tabs s.
+Proof.
+  intros Ep Hv Et. cbn [cexec]. rewrite Ep. unfold cas_tab. rewrite Et.
+  destruct (N.eqb_spec ver 0); [contradiction|]. split; reflexivity.
+Qed.
+
 (* sequentially (no other manager acting in between) a creation succeeds iff the name is absent: an existing name is
    refused at the first operation; for an absent name each of the three following operations succeeds as long as
    nobody else changed what it read *)
@@ -437,11 +459,11 @@ Theorem create_existing_refused s m name rv : get_pc (c_pcs s) m = CIdle -> tget
 Proof. intros Ep Et. cbn [cexec]. now rewrite Ep, Et. Qed.
 
 Theorem create_step_seq_ok s m name v ver : get_pc (c_pcs s) m = CCreate2 name v ver ->
-  (c_seq s = Some (v, ver) \/ c_seq s = None) ->
+  (c_seq s = Some (v, ver) \/ (c_seq s = None /\ ver = 0)) ->
   exists s', cexec s (AStep m) = (s', CRNone) /\ c_pcs s' = set_pc (c_pcs s) m (CCreate3 name (v + 1)) /\ c_tabs s' = c_tabs s.
 Proof.
   intros Ep Hs. cbn [cexec]. rewrite Ep. unfold cas_seq.
-  destruct Hs as [Hs|Hs]; rewrite Hs; [rewrite N.eqb_refl|]; eexists; repeat split.
+  destruct Hs as [Hs|[Hs ->]]; rewrite Hs; [rewrite N.eqb_refl|]; eexists; repeat split.
 Qed.
 
 Theorem create_step_record_ok s m name id : get_pc (c_pcs s) m = CCreate3 name id -> tget (c_tabs s) name = None ->
